@@ -284,6 +284,8 @@ def main():
         def requestAvatar(self, avatarId, mind, *interfaces):
             if avatarId is checkers.ANONYMOUS:
                 avatar = shell_anon(filepath.FilePath(cfg["anon_root"]))
+            elif avatarId in (cfg["user3"], cfg["user3"].encode("ascii")):
+                avatar = shell_rw(filepath.FilePath(cfg["ghost_root"]))
             elif avatarId in (cfg["user2"], cfg["user2"].encode("ascii")):
                 avatar = shell_rw(filepath.FilePath(cfg["sparse_root"]))
             else:
@@ -293,6 +295,7 @@ def main():
     db = checkers.InMemoryUsernamePasswordDatabaseDontUse()
     db.addUser(cfg["user"], cfg["password"])
     db.addUser(cfg["user2"], cfg["password2"])
+    db.addUser(cfg["user3"], cfg["password3"])
     p = portal.Portal(Realm(), [db, checkers.AllowAnonymousAccess()])
     stop = ("XSTOP " + cfg["token"]).encode("ascii")
 
